@@ -8,13 +8,15 @@ from vlib import tbatch, xrun
 M = "vlib.harness.h_prog"
 
 
-def drive(r, programs, n_strict, func, twin, label, cmd, tables, tier, chunk=12, pct=None, static=None, langs="python"):
+def drive(r, programs, n_strict, func, twin, label, cmd, tables, tier, chunk=12, pct=None, static=None, langs="python",
+          strict_vocabulary=False):
     """programs[:n_strict] are sliced in chunks; programs[n_strict:] (witnesses) one per slice."""
     batch, info = tbatch.build_batch(programs, cmd=cmd, tables=tables, langs=langs)
     r.extra["lian_run"] = {k: info[k] for k in ("rc", "wall_s", "cmd")}
     if info["rc"] != 0 or not any(p["rows"] for p in programs):
         r.harness_error(f"lian {cmd} failed on the batch (rc={info['rc']}): {info['log_tail'][-600:]}")
         return None
+    batch["strict_vocabulary"] = strict_vocabulary
     path = tbatch.save_batch(batch)
     try:
         h = importlib.import_module(M)
